@@ -206,7 +206,7 @@ def do_check(pid, tier, seed, args, t0):
 
     # bounded stand-ins
     bounded_out = []
-    for b in getattr(M, "BOUNDED", []):
+    for b in ([] if (args.only and os.environ.get("VERIF_ONLY_SKIPS_BOUNDED", "1") == "1") else getattr(M, "BOUNDED", [])):
         try:
             tb = time.time()
             r = b.fn(tier, seed)
